@@ -479,6 +479,160 @@ def expr_subst_args(e, actuals):
     return e
 
 
+
+def expr_children_map(e, r):
+    """rebuild e with r applied to each child expression"""
+    if not isinstance(e, tuple):
+        return e
+    tag = e[0]
+    if tag in ('arg', 'const', 'undef', 'cycle', 'unknown'):
+        return e
+    if tag == 'proj':
+        return ('proj', r(e[1]), e[2])
+    if tag in ('ref', 'rawptr'):
+        return (tag, e[1], r(e[2]))
+    if tag == 'bin':
+        return ('bin', e[1], r(e[2]), r(e[3]))
+    if tag == 'un':
+        return ('un', e[1], r(e[2]))
+    if tag == 'cast':
+        return ('cast', e[1], r(e[2]), e[3])
+    if tag == 'discr':
+        return ('discr', r(e[1]), e[2])
+    if tag == 'agg':
+        return ('agg', e[1], e[2], tuple(r(x) for x in e[3]))
+    if tag == 'closure':
+        return ('closure', e[1], tuple(r(x) for x in e[2]))
+    if tag == 'repeat':
+        return ('repeat', r(e[1]))
+    if tag == 'call':
+        return ('call', e[1], tuple(r(x) for x in e[2]), e[3])
+    if tag == 'icall':
+        return ('icall', r(e[1]), tuple(r(x) for x in e[2]), e[3])
+    if tag == 'phi':
+        return ('phi', tuple(r(x) for x in e[1]))
+    return e
+
+
+def simplify(e):
+    """resolve projections of known aggregates: `(Ok(v)? )` -> v, `(a, b).1` -> b.  Alternatives of a phi that
+    cannot have the projected variant (from_residual results under `as Continue`, other variants of an
+    aggregate) are dropped; anything not understood is left as it is."""
+    if not isinstance(e, tuple):
+        return e
+    e = expr_children_map(e, simplify)
+    if e[0] != 'proj':
+        return e
+    base, path = e[1], tuple(e[2])
+    while isinstance(base, tuple) and base[0] == 'proj':
+        base, path = base[1], tuple(base[2]) + path
+    while path:
+        nb = _proj_step(base, path)
+        if nb is None:
+            break
+        base, path = nb
+    return ('proj', base, path) if path else base
+
+
+def _dedupe(xs):
+    seen, out = set(), []
+    for x in xs:
+        k = repr(x)
+        if k not in seen:
+            seen.add(k)
+            out.append(x)
+    return tuple(out)
+
+
+_VARIANT_OF_TRY = {'as Continue': ('Ok', 'Some'), 'as Break': ('Err', 'None')}
+
+
+def _proj_step(base, path):
+    if not isinstance(base, tuple):
+        return None
+    if base[0] == 'phi':
+        outs = []
+        for alt in base[1]:
+            r = _proj_step(alt, path)
+            if r == 'impossible':
+                continue
+            if r is None:
+                return None
+            outs.append(r)
+        if not outs:
+            return None
+        rests = {r[1] for r in outs}
+        if len(rests) != 1:
+            return None
+        vals = _dedupe([r[0] for r in outs])
+        return (vals[0] if len(vals) == 1 else ('phi', vals)), outs[0][1]
+    if base[0] == 'call' and base[1] in TRY_BRANCH and len(path) >= 2 and path[0] in _VARIANT_OF_TRY and path[1] == '0':
+        # branch(x) as Continue .0  ==  payload of the Ok/Some alternatives of x
+        x = base[2][0]
+        alts = x[1] if isinstance(x, tuple) and x[0] == 'phi' else (x,)
+        vals = []
+        for a in alts:
+            if isinstance(a, tuple) and a[0] == 'agg' and a[1] in ('core::result::Result', 'core::option::Option'):
+                if a[2] in _VARIANT_OF_TRY[path[0]]:
+                    if len(a[3]) != 1:
+                        return None
+                    vals.append(a[3][0])
+            elif isinstance(a, tuple) and a[0] == 'call' and a[1] in FROM_RESIDUAL:
+                if path[0] == 'as Continue':
+                    continue
+                return None
+            else:
+                return None
+        if not vals:
+            return None
+        vals = _dedupe(vals)
+        return (vals[0] if len(vals) == 1 else ('phi', vals)), path[2:]
+    if base[0] == 'call' and base[1] in FROM_RESIDUAL and path[0] == 'as Continue':
+        return 'impossible'
+    if base[0] == 'agg':
+        if path[0].startswith('as '):
+            if base[2] and path[0] != 'as ' + base[2]:
+                return 'impossible'
+            return base, path[1:]
+        if path[0].isdigit() and int(path[0]) < len(base[3]) and base[1] in ('tuple', 'core::result::Result', 'core::option::Option'):
+            return base[3][int(path[0])], path[1:]
+    return None
+
+
+def inline_local_calls(fx, e, keep, depth=3, _stack=()):
+    """replace calls of crate-local functions for which keep(name) is false by the expression of their return
+    value (actual arguments substituted) and simplify; a rule phrased over the primitives in `keep` then gives
+    the same verdict when code between a word and the primitives is moved into or out of helper functions"""
+    if not isinstance(e, tuple):
+        return e
+    def r(x):
+        return inline_local_calls(fx, x, keep, depth, _stack)
+    e = expr_children_map(e, r)
+    if e[0] == 'call' and e[1] in fx.fns and not keep(e[1]) and depth > 0 and e[1] not in _stack and '{closure' not in e[1]:
+        g = fx.fns[e[1]]
+        body = g.expr_of_local(0)
+        body = expr_subst_args(body, list(e[2]))
+        return inline_local_calls(fx, body, keep, depth - 1, _stack + (e[1],))
+    return e
+
+
+def norm_refs(e):
+    """collapse borrow-then-deref chains: (*&x).f -> x.f ; *&x -> x  (they appear when a value is passed through a
+    reference parameter; the place denoted is the same)"""
+    if not isinstance(e, tuple):
+        return e
+    e = expr_children_map(e, norm_refs)
+    if e[0] == 'proj':
+        base, path = e[1], tuple(e[2])
+        while isinstance(base, tuple) and base[0] == 'proj':
+            base, path = base[1], tuple(base[2]) + path
+        while path and path[0] == '*' and isinstance(base, tuple) and base[0] == 'ref':
+            base, path = base[2], path[1:]
+            while isinstance(base, tuple) and base[0] == 'proj':
+                base, path = base[1], tuple(base[2]) + path
+        return ('proj', base, path) if path else base
+    return e
+
 def expr_calls(e):
     return [x for x in expr_walk(e) if isinstance(x, tuple) and x[0] == 'call']
 
